@@ -608,4 +608,13 @@ example : meanAxis0 2 ([[1, 4], [3, 0]].map (·.map (fun x => 2 * x + 1))) = .va
 example : meanAxis0C 2 [[(1, 1), (0, -2)], [(3, 0), (1, 2)]] = (.values [2, 1/2], .values [1/2, 0]) := by
   decide +kernel
 
+/-- **C15.4 (rows of the tables)** the number of trajectories a run allocates rows for: one when the run is noise-free
+    (or the Lindblad solver), otherwise the number requested — never zero for a positive request -/
+theorem eff_traj_rule (requested : Nat) :
+    effTraj requested true = 1 ∧ effTraj requested false = requested ∧
+    (∀ single, 1 ≤ requested → 1 ≤ effTraj requested single) := by
+  refine ⟨rfl, rfl, ?_⟩
+  intro single h
+  cases single <;> simp [effTraj, h]
+
 end Yaqs.Storage
